@@ -240,6 +240,10 @@ class bicgstab {
                     std::cout << iter << "\t" << std::scientific << res / norm_rhs << std::endl;
             }
 
+            // With check_after the loop is entered with the placeholder res = 2 * eps;
+            // if no iteration was made, report the actual residual of x instead.
+            if (prm.check_after && iter == 0) res = norm(*r);
+
             return std::make_tuple(iter, res / norm_rhs);
         }
 
